@@ -146,6 +146,33 @@ def mutable_values_through_a_run(ctx, rep):
     return n
 
 
+def stobads_setting_kept(ctx, rep):
+    """A user who switches the stochastic poll rule on (stobads=True) without declaring the noise (uncertainty_handling left unset: the
+    start-up test decides) keeps that setting through construction, and through the run when the target turns out to be noisy."""
+    from pybads import BADS
+    n = 0
+    for D, noisy_target, uh in ((1, True, None), (2, True, None), (2, True, True), (2, False, None)):
+        user = {"stobads": True, "display": "off", "max_fun_evals": 60, "n_search": 32, "random_seed": 5}
+        if uh is not None:
+            user["uncertainty_handling"] = uh
+        tf = (lambda x: float(np.sum(np.asarray(x) ** 2)) + 0.3 * np.random.randn()) if noisy_target else (lambda x: float(np.sum(np.asarray(x) ** 2)))
+        b = BADS(tf, np.full(D, 0.3), np.full(D, -4.0), np.full(D, 6.0), np.full(D, -2.0), np.full(D, 3.0), options=dict(user))
+        case = {"kind": "options_run", "D": D, "user_keys": sorted(user), "stobads": True}
+        n += 1
+        if b.options["stobads"] is not True:
+            rep.violation("user_wins", SITE, f"D={D}: stobads=True supplied (uncertainty_handling={uh!r}) but after construction the instance has stobads={b.options['stobads']!r}", case)
+            continue
+        try:
+            b.optimize()
+        except Exception as ex:
+            rep.disagree("Opt.load ~ BADS (run with stobads=True)", f"optimize() raised {type(ex).__name__}: {str(ex)[:80]}", case)
+            continue
+        if noisy_target and b.options["stobads"] is not True:
+            rep.violation("user_value_kept", "bads.py:_init_optimization_", f"D={D}: stobads=True supplied for a target that the run treats as stochastic, but after the run the instance has "
+                          f"stobads={b.options['stobads']!r}", case)
+    return n
+
+
 def options_survive_faulted_runs(ctx, rep):
     """Runs in which GP fits fail (and, with use_slice_sampler=True, the sampler that supplies the restart point fails too): whatever the
     recovery paths do, the options the user supplied still hold the supplied values afterwards."""
@@ -203,7 +230,7 @@ def options_survive_faulted_runs(ctx, rep):
 
 def run(ctx):
     rep = Report()
-    nmut = mutable_values_through_a_run(ctx, rep) + options_survive_faulted_runs(ctx, rep)
+    nmut = mutable_values_through_a_run(ctx, rep) + options_survive_faulted_runs(ctx, rep) + stobads_setting_kept(ctx, rep)
     rng = ctx.sub_rng("c20")
     basic, adv = files()
     names = [k for k, _ in basic] + [k for k, _ in adv]
